@@ -171,9 +171,10 @@ def setPath (tree : Val) (p : List Seg) (v : Val) : Except ErrKind Val :=
     | .tuple xs => asKeyError do let ys ← setSeq (fun c => setPath c rest v) xs k; .ok (.tuple ys)
     | _ => .error .type                        -- 'Insert to immutable ...'
 
-/-- When `true` the repaired `_set_by_path` is modelled: `Key.SKIP` leaves every tree untouched,
-also the `NullMap` placeholder.  The unrepaired code built `{'SKIP': value}` there (finding
-F-C08-skip-first). -/
+/-- When `true` the repaired `_set_by_path` is modelled (fix 2dc19b6 on /repo main, finding F27 of
+C18 = F-C08-skip-first): a leading `Key.SKIP` returns the tree untouched *before* anything else is
+looked at — also the `NullMap` placeholder, also an immutable leaf.  The unrepaired code built
+`{'SKIP': value}` on the placeholder and raised `TypeError` on a leaf. -/
 def skipFixed : Bool := true
 
 /-- `TreeMapView(tree).copy_and_set(key, value)` for one key -/
@@ -185,10 +186,11 @@ def setKey (tree : Val) (k : Key) (v : Val) : Except ErrKind Val :=
   | .path p => setPath tree p v
   | .lit x => setPath tree [.name (litRepr x)] v
   | .skip =>
-    match tree with
-    | .null => if skipFixed then .ok .null else .ok (.dict [("SKIP", v)])
-    | .dict _ | .list _ | .tuple _ => .ok tree  -- `case (Reserved() as reserved, *_): pass`
-    | _ => .error .type
+    if skipFixed then .ok tree
+    else match tree with
+      | .null => .ok (.dict [("SKIP", v)])
+      | .dict _ | .list _ | .tuple _ => .ok tree  -- `case (Reserved() as reserved, *_): pass`
+      | _ => .error .type
 
 /-! ## User callables
 
@@ -304,7 +306,7 @@ namespace Ref
 a dict key `{n: p}` stores `o[p]` under `n`, any other key stores it at that place -/
 def route (rec : Val) (k : OutKey) (o : Val) : Except ErrKind Val :=
   match k with
-  | .key .skip => (match rec with | .none | .bool _ | .int _ | .str _ => .error .type | _ => .ok rec)
+  | .key .skip => .ok rec
   | .key .self => .ok o
   | .key k => setKey rec k o
   | .dict items => do
@@ -529,7 +531,8 @@ def rebatchGen (target : Nat) : Nat → Rebatch.St Val → List (AEv (List Val))
   | _, _, ⟨.error e, u⟩ :: _, _ => ⟨[⟨.error e, u⟩], u⟩
   | ncols, st, ⟨.ok cols, u⟩ :: rest, endUsed =>
     let (ncols, st) := if ncols = 0 then (cols.length, Rebatch.St.init cols.length) else (ncols, st)
-    match cols.mapM toCol >>= Rebatch.step target ncols none st with
+    -- 'Mismatched columns' is checked before `_batch_size(column)` looks at the columns
+    match (if cols.length != ncols then .error .value else cols.mapM toCol) >>= Rebatch.step target ncols none st with
     | .ok (st', outs) =>
       let r := rebatchGen target ncols st' rest endUsed
       ⟨(outs.map fun b => ⟨.ok (b.map ofCol), u⟩) ++ r.evs, r.endUsed⟩
